@@ -13,6 +13,8 @@ mod c13;
 mod c16;
 mod c17;
 mod c18;
+mod c19;
+mod iso;
 mod corpus;
 mod codec;
 mod common;
@@ -48,6 +50,7 @@ fn main() {
         "C16" => c16::run(&cli, &rep),
         "C17" => c17::run(&cli, &rep),
         "C18" => c18::run(&cli, &rep),
+        "C19" => c19::run(&cli, &rep),
         other => {
             eprintln!("mc-seq: unknown check {other}");
             std::process::exit(2);
